@@ -1,6 +1,7 @@
 import SfVerif.Props.C03
 import SfVerif.Lemmas.Codec5
 import SfVerif.Lemmas.GenWriter
+import SfVerif.Lemmas.PLang2
 /-! C02 — a completed output document is exactly the value that was written. -/
 namespace SfVerif.Props.C02
 open SfVerif SfVerif.Gen
@@ -88,5 +89,90 @@ theorem C02_write_calls_are_the_source_text (w : Writer) (op : WOp) : writerStep
     word, an interned string as allocate + copy of the interned bytes (recognised by the translator on
     every run; a body it does not recognise is a broken translation obligation) -/
 theorem C02_entry_points_recognised : writerEntryPoints.length = 10 := by decide +kernel
+
+/-- one api-level write call: (writer afterwards, status) -/
+def stepA (w : Writer) : AOp → Writer × Nat
+  | .w op => ((w.step op).1, (w.step op).2.1)
+  | .str bs => w.writeStr bs
+
+/-- a history of api-level write calls that keeps going after rejected calls: the writer at the end
+    and the calls that were accepted, in call order -/
+def runKeep (w : Writer) : List AOp → Writer × List AOp
+  | [] => (w, [])
+  | op :: rest =>
+    if (stepA w op).2 = WriteResult_Ok then
+      ((runKeep (stepA w op).1 rest).1, op :: (runKeep (stepA w op).1 rest).2)
+    else runKeep (stepA w op).1 rest
+
+theorem stepA_reject_noop (w : Writer) (op : AOp) (h : (stepA w op).2 ≠ WriteResult_Ok) : (stepA w op).1 = w := by
+  cases op with
+  | w o => exact SfVerif.Props.C03.C03_reject_noop w o h
+  | str bs => exact C02_rejected_string_write_noop w bs h
+
+/-- **rejected calls leave no trace**: after any history, the writer is exactly where the accepted
+    calls alone would have put it, and those are accepted one after the other -/
+theorem C02_rejected_calls_leave_no_trace : ∀ (ops : List AOp) (w : Writer),
+    (runAOps w (runKeep w ops).2).2 = WriteResult_Ok ∧ (runAOps w (runKeep w ops).2).1 = (runKeep w ops).1
+  | [], w => ⟨rfl, rfl⟩
+  | op :: rest, w => by
+    rw [runKeep]
+    by_cases hok : (stepA w op).2 = WriteResult_Ok
+    · rw [if_pos hok]
+      obtain ⟨h1, h2⟩ := C02_rejected_calls_leave_no_trace rest (stepA w op).1
+      cases op with
+      | w o =>
+        simp only [stepA] at hok h1 h2 ⊢
+        rw [runAOps]
+        generalize hr : w.step o = r at hok h1 h2 ⊢
+        obtain ⟨w', r', oo⟩ := r
+        simp only [] at hok h1 h2 ⊢
+        rw [if_neg (by simpa using hok)]
+        exact ⟨h1, h2⟩
+      | str bs =>
+        simp only [stepA] at hok h1 h2 ⊢
+        rw [runAOps]
+        generalize hr : w.writeStr bs = r at hok h1 h2 ⊢
+        obtain ⟨w', r'⟩ := r
+        simp only [] at hok h1 h2 ⊢
+        rw [if_neg (by simpa using hok)]
+        exact ⟨h1, h2⟩
+    · rw [if_neg hok, stepA_reject_noop w op hok]
+      exact C02_rejected_calls_leave_no_trace rest w
+
+/-- **C02, every history**: take any finite sequence of write calls (encodable payloads, strings
+    written whole), accepted or rejected in any mixture. If the writer then reports the output complete,
+    the accepted calls, in call order, are the serialisation of one value tree `v`; the output bytes are
+    exactly its canonical MessagePack encoding — one well-formed value, nothing before or after — and
+    the independent eager decoder reads them back to exactly the tree `v` describes. -/
+theorem C02_every_history (ops : List AOp) (hw : ∀ op ∈ ops, op.wf = true)
+    (hfin : ((runKeep {} ops).1.finalize).1 = WriteResult_Ok) :
+    ∃ v : TVal, v.ser = (runKeep {} ops).2 ∧ wfV v = true ∧
+      (runKeep {} ops).1.finalize = (WriteResult_Ok, v.enc.toArray) ∧
+      decodeAll (runKeep {} ops).1.out = some v.doc := by
+  obtain ⟨h1, h2⟩ := C02_rejected_calls_leave_no_trace ops {}
+  have hsub : ∀ op ∈ (runKeep {} ops).2, op.wf = true := by
+    have : ∀ (ops : List AOp) (w : Writer), ∀ op ∈ (runKeep w ops).2, op ∈ ops := by
+      intro ops
+      induction ops with
+      | nil => intro w op h; simp [runKeep] at h
+      | cons o rest ih =>
+        intro w op h
+        rw [runKeep] at h
+        split at h
+        · rcases List.mem_cons.mp h with rfl | h
+          · exact List.mem_cons_self
+          · exact List.mem_cons_of_mem _ (ih _ op h)
+        · exact List.mem_cons_of_mem _ (ih _ op h)
+    exact fun op hop => hw op (this ops {} op hop)
+  rw [← h2] at hfin
+  obtain ⟨v, hv, hwf⟩ := accepted_complete_is_ser _ hsub h1 hfin
+  obtain ⟨_, _, _, g4, g5⟩ := C02_completed_output_is_the_tree v hwf
+  refine ⟨v, hv, hwf, ?_, ?_⟩
+  · rw [← h2, ← hv]; exact g4
+  · rw [← h2, ← hv]; exact g5
+
+/-- non-vacuity: a history with two rejected calls in it that ends complete -/
+example : ((runKeep {} [.w .endArr, .w (.arr 2), .w (.bool true), .w .endArr, .str #[0x61], .w .endArr]).1.finalize).1 = WriteResult_Ok := by
+  decide
 
 end SfVerif.Props.C02
